@@ -1,6 +1,6 @@
 """C09 - auto-profiling profiles exactly what was asked for.
 
-Theorem side: Props/C09.v over Ast/{AstLite,Select,Transform,TransformFacts}.v and
+Theorem side: Props/C09.v over Ast/{AstLite,Select,Transform,TransformFacts,Placement}.v and
 Gen/Select.v (the two matching functions regenerated from profmod_extractor.py on
 every run; Ast/SelectGen.v proves them equal to the hand-written reading).
 
@@ -21,9 +21,8 @@ from harness.props import c09_gen as G
 
 PROP = 'C09'
 MODULE = 'Props.C09'
-THEOREMS = ['C09_whole_script', 'C09_whole_script_once_innermost', 'C09_nothing_else_registered',
-            'C09_selection_sound', 'C09_selection_exact_partial', 'C09_same_statement_refuted',
-            'C09_registered_names', 'C09_no_prefix_confusion', 'C09_parent_is_whole_component',
+THEOREMS = ['C09_whole_script', 'C09_whole_script_once_innermost', 'C09_selection_exact', 'C09_registered_names',
+            'C09_registration_follows_import', 'C09_no_prefix_confusion', 'C09_parent_is_whole_component',
             'C09_translated_matching_agrees', 'C09_nonvacuous']
 LEVEL = 'proof'
 GEN_TARGETS = ['RelImport.v', 'Select.v']
@@ -50,9 +49,10 @@ def py_all_bindings(body):
         if s[0] == 'I':
             for n, a in s[1]:
                 out.append((n, a, idx))
-        elif s[0] == 'IF' and s[1] is not None:
+        elif s[0] == 'IF' and s[1] is not None and s[1] != '__future__':
             for n, a in s[2]:
-                out.append((s[1] + '.' + n, a or n, idx))
+                if n != '*':          # `from x import *` binds no single name
+                    out.append((s[1] + '.' + n, a or n, idx))
     return out
 
 
@@ -84,13 +84,14 @@ def py_tree_spec(case, t):
     want = py_wanted(S, pre)
     wset = {(i, n) for i, n, _r in want}
     dset = {(i, n) for i, n in t['dict']}
-    if wset != dset:
+    in_order = all(ns == [n for i, n, _r in want if i == k] for k, ns in t['dict_order'])
+    if wset != dset or not in_order:
         idxs = [i for i, _n, _r in want]
         survivors = {}
         for i, n, _r in want:
             survivors[i] = n
         explained = (len(idxs) != len(set(idxs))) and dset == set(survivors.items())
-        fails.append(('selection not exact: demanded %s, registered %s' % (sorted(wset), sorted(dset)),
+        fails.append(('selection not exact: demanded %s, registered %s' % ([(i, n) for i, n, _r in want], t['dict_order']),
                       F_MULTI if explained else None))
     full, imports = t['full'], case['imports']
     fo, fp = AC.funcs(out), AC.funcs(pre)
@@ -153,31 +154,37 @@ def py_e2e_spec(case, t, e):
         return out
     want = py_wanted(S, body)
     demanded = funcs_of(r for _i, _n, r in want) | own
-    # what the three known defects leave: sub-package names missing from the selection,
-    # one surviving binding per import statement, only plain methods of classes
+    # what the known defects leave: sub-package names missing from the selection, only plain
+    # methods of classes; [old]: additionally one surviving binding per import statement
+    # (the repaired multi-name defect, kept as a labelled regression shape)
     want_ns = py_wanted(S_nosub, body)
     survivors = {}
     for i, _n, real in want_ns:
         survivors[i] = real
-    buggy = funcs_of(survivors.values(), drop_wrapped=True) | own
+    buggy = funcs_of((r for _i, _n, r in want_ns), drop_wrapped=True) | own
+    buggy_old = funcs_of(survivors.values(), drop_wrapped=True) | own
     if case['imports'] and full:
         upper = set(demanded)
         for n, _a, _i in py_all_bindings(body):
             upper |= set(reachable(case, n))
-        ok = demanded <= base_keys <= upper
-        ok_buggy = buggy <= base_keys <= upper
+
+        def matches(x):
+            return x <= base_keys <= upper
     else:
-        ok = base_keys == demanded and not outside
-        ok_buggy = base_keys == buggy and not outside
-    if ok:
+        def matches(x):
+            return base_keys == x and not outside
+    if matches(demanded):
         return []
-    if not ok_buggy:
+    if not matches(buggy) and not matches(buggy_old):
         return [('profiled functions %s differ from the demanded %s (outside the project: %s)'
                  % (sorted(base_keys), sorted(demanded), outside[:3]), None)]
     fails = []
     missing = demanded - base_keys
     miss_sub = missing & (demanded - (funcs_of(r for _i, _n, r in want_ns) | own))
-    miss_multi = (missing - miss_sub) & (funcs_of(r for _i, _n, r in want_ns) - funcs_of(survivors.values()))
+    if matches(buggy):
+        miss_multi = set()          # every selected binding of every statement is registered
+    else:
+        miss_multi = (missing - miss_sub) & (funcs_of(r for _i, _n, r in want_ns) - funcs_of(survivors.values()))
     miss_wrapped = missing - miss_sub - miss_multi
     if miss_sub:
         fails.append(('members of a sub-package __init__ of a selected package missing from the stats: %s'
@@ -259,10 +266,6 @@ def drive(impl, cases, root, workers=12):
     return [r for p in parts for r in p]
 
 
-def coq_dict(d):
-    return '[' + '; '.join('(%s, %s)' % (core.coq_z(k), core.coq_str(v)) for k, v in d) + ']'
-
-
 def coq_strs(xs):
     return '[' + '; '.join(core.coq_str(x) for x in xs) + ']'
 
@@ -271,16 +274,20 @@ def err_code(name):
     return {None: 0, 'ValueError': 1, 'AssertionError': 2, 'IndexError': 3, 'TypeError': 4}.get(name, 6)
 
 
+def coq_dictl(d):
+    return '[' + '; '.join('(%s, %s)' % (core.coq_z(k), coq_strs(ns)) for k, ns in d) + ']'
+
+
 def c09_row(case, t):
-    out = t.get('out') if t.get('err') is None else None
-    d = t.get('dict') if t.get('err') is None or t.get('dict') is not None else None
+    ok = t.get('err') is None
+    out = t.get('out') if ok else None
     pre = t.get('pre') if t.get('pre') is not None else t['orig']
-    return '(c09_case %s %s %s %s\n %s\n %s\n %s\n %s %s)' % (
+    return '(c09_case %s %s %s %s\n %s\n %s\n %s\n %s)' % (
         core.coq_bool(bool(t.get('full'))), core.coq_bool(case['imports']),
         core.coq_opt(core.coq_str(t['modname']) if t.get('modname') else None),
         coq_strs(t.get('S') or []), AC.coq_body(t['orig']), AC.coq_body(pre),
-        core.coq_opt(coq_dict(t['dict_order']) if d is not None else None),
-        core.coq_opt(AC.coq_body(out) if out is not None else None), core.coq_z(err_code(t.get('err'))))
+        core.coq_opt(coq_dictl(t['dict_order']) if t.get('dict_order') is not None else None),
+        core.coq_opt(AC.coq_body(out) if out is not None else None))
 
 
 def shard_rows(rows, max_bytes=150000, max_rows=200):
@@ -445,7 +452,7 @@ def run(tier, seed):
         samples=samples, in_process_tree_cases=len(trees), end_to_end_runs=e2e_n,
         tree_depth_histogram={str(k): v for k, v in sorted(depths.items())}, import_forms=styles,
         selection_spellings=spell,
-        hypothesis_holds_on=dict(C09_selection_exact_partial=n_partial, C09_same_statement_refuted_shape=n_multi,
+        hypothesis_holds_on=dict(one_selected_name_per_statement=n_partial, several_selected_names_in_one_statement=n_multi,
                                  C09_whole_script=n_full, prof_imports=n_imports, module_mode=n_module,
                                  rewrite_raised=n_err),
         translated=['line_profiler/autoprofile/profmod_extractor.py::_ast_get_imports_from_tree, '
